@@ -40,7 +40,7 @@ PROPS = {
                 "corrupt-content, foreign-option-letter, blank-line, over-cap; the oracle tokenises input and output independently of the "
                 "library.  Non-trivial = accepted valid text or a mutant outside the layout; distinct = distinct (type, class, tag sequence). "
                 "extract: adversarial strings (markers, end markers, CR/LF, Unicode white space and letters) x tags, and random "
-                "MessageParser operation histories, implementation vs compiled Lean model",
+                "MessageParser operation histories, implementation vs compiled Lean model Round-4 addition: every field in turn with an empty content.",
         "modelled": "extraction kernel + MessageParser (all public operations) modelled by hand; 30 parse_from_block4 bodies regenerated as call "
                     "lists with propagation/completeness facts (T1); field parsers abstract (any acceptance predicate); field content "
                     "round trips are C02",
@@ -60,7 +60,7 @@ PROPS = {
                 "parsed with SwiftParser::parse and re-serialised, blocks compared with an independent brace-matching reader; near-miss "
                 "headers (length +-1, wrong / lower-case direction, non-code monitoring character, partly readable lengths, non-ASCII) must "
                 "be rejected; bodies containing '-}', '{5:' or '{1:' probe structure independence; BasicHeader/ApplicationHeader parse+Display "
-                "and extract_block(1..5) are compared with the compiled Lean model on every ASCII case. distinct = (direction, tag subsets)",
+                "and extract_block(1..5) are compared with the compiled Lean model on every ASCII case. distinct = (direction, tag subsets) Also: output / input headers with an odd priority character (rejected or kept verbatim), upper- and mixed-case UETRs.",
         "modelled": "BasicHeader / ApplicationHeader parse + Display, extract_block + find_matching_brace by hand; block-3/5 tag lists of parse "
                     "and Display regenerated (T5); UserHeader/Trailer value handling is exercised by the oracle, not modelled",
         "trusted_base": [KERNEL, TRANSLATOR, HARNESS, "hand model SwiftMT/Headers.lean (ASCII texts; compared on every generated case)"],
@@ -73,7 +73,7 @@ PROPS = {
         "instances": lambda gen: len(gen.get("tables", {}).get("date_sites", [])),
         "exhaustive": False,
         "rule": "quick: every yy x {month 00,01,02,03,04,06,09,11,12,13,99} x {day 00,01,28..32,99} plus 3000 random six-digit strings, "
-                "every 7th HHMM string, every HH x {MM 00,01,30,59,60,99} as time and as +/- offset, plus signed / spaced / lettered / "
+                "every 7th HHMM string (MT side and the JSON time codec, which must accept the same strings), every HH x {MM 00,01,30,59,60,99} as time and as +/- offset, eight-digit date strings, plus signed / spaced / lettered / "
                 "non-ASCII spellings; thorough: exhaustive 10^6 six-digit strings through 15 date-bearing fields, 10^4 HHMM, 2x10^4 "
                 "offsets. Each case compares acceptance, meaning (date in the parsed value), MT serialisation and JSON round trip with an "
                 "independent days-in-month oracle, and the date/time primitives with the compiled Lean model. Non-trivial = a valid "
@@ -114,7 +114,7 @@ PROPS = {
                 "variant named by the letter or fail; parse without letter must return a variant whose own parser gives the same value and "
                 "that re-parses from its serialisation; each (content, letter) also inside a message position through "
                 "MessageParser::parse_variant_field / parse_optional_variant_field, compared with the compiled Lean model (the enum's verdict as "
-                "sidecar). distinct = (enum, letter, content)",
+                "sidecar). distinct = (enum, letter, content) Also: look-alike and spliced contents (first line of one option + remaining lines of another), invalid slash-led one-liners, every family letter in a message position (letter_not_read oracle).",
         "modelled": "MessageParser::parse_variant_field / parse_optional_variant_field including the written-back-tag check, for an arbitrary "
                     "enum; the 25 enum declarations and their parse_with_variant arms are regenerated (T3); the content heuristics of the "
                     "enums' parse() are exercised by the oracle, not modelled",
@@ -133,7 +133,7 @@ PROPS = {
                 "increasing); each resulting map through find_field_with_variant_sequential_constrained for six base tags (every occurrence "
                 "exactly once, in order) and through split_into_sequences under 8 configurations (partition); random request histories "
                 "(next+mark, raw mark) through FieldConsumptionTracker; tokeniser and tracker compared with the compiled Lean model. "
-                "distinct = (stream, text / history)",
+                "distinct = (stream, text / history) Also: mixed line ends within one text.",
         "modelled": "parse_block4_fields (loop, stamps, normalize_field_tag, extract_base_tag), FieldConsumptionTracker, the final distribution "
                     "step of split_into_sequences; the boundary search of split_into_sequences and the constrained finder are covered by the "
                     "oracle only",
@@ -150,7 +150,7 @@ PROPS = {
                 "/RETURN/, lower case, words without slashes, words inside other lines) x 10 user references (tag 108) x 7 validation flags "
                 "(tag 119), plus random multi-line combinations with sequence-B / 23B / 56a variants; the four SwiftMessage predicates and the "
                 "plugin's `method` compared with an independent statement of the rules and with the compiled Lean model; distinct = all "
-                "parameters; non-trivial = a code word or look-alike present",
+                "parameters; non-trivial = a code word or look-alike present Also: MT199 body predicates against the first-line rule; a second parse_mt on the same dataflow message (no stale method).",
         "modelled": "SwiftMessage::has_reject_codes/has_return_codes/is_cover_message, the MT103/202/205 body predicates over regenerated "
                     "word tables, and the plugin's method chains (regenerated, T5); is_stp_compliant is an input (C04)",
         "trusted_base": [KERNEL, TRANSLATOR, HARNESS, "hand model SwiftMT/Classify.lean of how the predicates combine the tables"],
@@ -176,7 +176,7 @@ PROPS = {
         "exhaustive": True,
         "rule": "exhaustive: 30x30 (requested, announced) typed parses; every announced code 000-999 through parse_auto, parse_mt, "
                 "validate_mt; the 30 supported codes additionally through publish_mt (both key spellings), wrapper validate and a JSON/"
-                "text comparison with the typed API; a case is one (entry point, code[, requested]) triple, all are distinct",
+                "text comparison with the typed API; a case is one (entry point, code[, requested]) triple, all are distinct Also: rule-violating messages of every type through wrapper and plugin validate; type strings that merely start with a supported code through publish.",
         "modelled": "all five dispatch tables + each type's message_type() are regenerated from source (T4); entry-point glue "
                     "(manual_unescape, clean_null_fields, serde of the wrapper) is exercised by the harness, not modelled",
         "trusted_base": [KERNEL, TRANSLATOR, HARNESS,
